@@ -360,6 +360,9 @@ def select_groups(prop, tier, only=None):
     gs = []
     for g in table.GROUPS:
         props = g["property"] if isinstance(g["property"], list) else [g["property"]]
+        if tier == "thorough":
+            # lemma groups too heavy for the 15-minute quick budget of a second property run for it in the thorough tier
+            props = props + list(g.get("thorough_property", []))
         if prop not in props:
             continue
         if g.get("tier", "quick") == "thorough" and tier != "thorough":
